@@ -431,6 +431,11 @@ class Buildable(Generic[T], metaclass=abc.ABCMeta):
     else:
       if key < 0:
         key += len(all_positional_args)
+      if not 0 <= key < len(all_positional_args):
+        raise IndexError(
+            f'Cannot delete positional argument with index {key}'
+            ' (index out of range).'
+        )
       indices = [key]
     if var_positional_start is None:
       # No *args: every positional argument belongs to the fixed prefix.
